@@ -110,6 +110,17 @@ CHECKS = {
   "note": COMMON_NOTE + "Modelled not verified: the URL parser and the regex engine are oracles (the normaliser's own shape guarantees are "
           "C09's); archive() is replaced by scripted answers at this level and runs for real only in the end-to-end scenarios.",
  },
+ "C06": {
+  "text": "Theorems over the stage model for every node, configuration and extractor result: a redirect is followed only below "
+          "--max-redirect and its target carries one more redirect and the page's hops; beyond depth 2 (domains-crawl off) nothing is "
+          "extracted; assets inherit hops, non-matching outlinks carry hops+1 and come only from pages below --max-hops, matching ones "
+          "get 0; the redirect / hops bound is an invariant of postprocess over whole trees; the retry loop runs exactly max-retry+1 "
+          "times (over the regenerated loop facts). Adversarial scripted sites (endless chains, loops, endless nested JSON) are pushed "
+          "through the real stages until the seed finishes; each fetch, node and outlink is judged by an independent oracle and each "
+          "step is replayed on the model.",
+  "note": COMMON_NOTE + "Termination of a whole seed (pass count) and the depth limit as a tree invariant are checked on the implementation, "
+          "not proved (the theorems bound every single decision). The retry loop itself runs only in the end-to-end scenarios.",
+ },
 }
 
 _todo = "check not built yet in this session (work in progress; see DESIGN.md §4 for the planned model and theorems)"
